@@ -576,6 +576,15 @@ class WithComponentsConstraint(AbstractConstraint):
             if not getattr(component, 'isValue', True):
                 component = None
 
+            if component is None and not isinstance(
+                    constraint, (ComponentPresentConstraint,
+                                 ComponentAbsentConstraint,
+                                 AbstractConstraintSet)):
+                # a constraint on the value of a component applies
+                # when the component is present: an absent one has
+                # no value to test
+                continue
+
             constraint(component)
 
     def _setValues(self, values):
